@@ -10,11 +10,25 @@ namespace {
 // ---------------------------------------------------------------- C08
 static const char* const N_PRE[] = {"", "/", "//h", "//h/", "a:", "a:/", "A://H%41%3a/", "//u%7e@[V1.AB]/"};
 static const size_t NPRE = sizeof(N_PRE) / sizeof(N_PRE[0]);
-static uint64_t norm_nsys() { return (uint64_t)NPRE * gpaths_count(4); }
+// every character value in every component: literal (where the grammar allows it) and as a percent triplet in the four
+// hex-case spellings -- the unreserved table, the case tables and "changing nothing else" are exercised entry by entry
+static const char* const CH_TPL[][2] = {{"s://", "@h/p"}, {"S://", "/p"}, {"s://h/", "/q"}, {"", "/q"}, {"/", ""}, {"s://h/p?", ""}, {"s://h/p#", "#"}, {"", ":p"}, {"s://[v1.", "]/"}, {"//", ""}, {"?", ""}};
+static const size_t NCHTPL = sizeof(CH_TPL) / sizeof(CH_TPL[0]);
+static uint64_t norm_nchars() { return (uint64_t)NCHTPL * 255 * 6; }
+static Str norm_char_case(uint64_t i) {
+    const char* const* t = CH_TPL[i % NCHTPL]; i /= NCHTPL; unsigned b = 1 + (unsigned)(i % 255); i /= 255; unsigned v = (unsigned)i;   // v: 0 literal, 1 literal between letters, 2..5 triplet spellings
+    Str x; static const char* HU = "0123456789ABCDEF"; static const char* HL = "0123456789abcdef";
+    if (v == 0) x.push_back((char)b);
+    else if (v == 1) { x += "A"; x.push_back((char)b); x += "z"; }
+    else { x += "%"; x.push_back(((v - 2) & 1 ? HL : HU)[b >> 4]); x.push_back(((v - 2) & 2 ? HL : HU)[b & 15]); if (b & 1) x = "k" + x + "%4a"; }
+    return Str(t[0]) + x + t[1];
+}
+static uint64_t norm_nsys() { return (uint64_t)NPRE * gpaths_count(4) + norm_nchars(); }
 static uint64_t norm_ncases(Ctx& c) { return norm_nsys() + (uint64_t)c.param_int("random", c.tier == "thorough" ? 3000000 : 60000); }
 
 static Str norm_input(Ctx& c, uint64_t idx, const char** gen) {
-    if (idx < norm_nsys()) { *gen = "systematic"; Str pre = N_PRE[idx % NPRE]; return pre + gpaths_case(idx / NPRE, 4); }
+    if (idx < norm_nchars()) { *gen = "charset"; return norm_char_case(idx); }
+    if (idx < norm_nsys()) { idx -= norm_nchars(); *gen = "systematic"; Str pre = N_PRE[idx % NPRE]; return pre + gpaths_case(idx / NPRE, 4); }
     Rng& r = c.rng; UriGenOpts o; o.maxSegs = 7;
     switch (r.below(5)) {
     case 0: *gen = "uri"; return gen_uri(r, o);
